@@ -201,6 +201,7 @@ func (ls *listenServer) OnMoved(addr string, slot int32, s core.SConn, f *core.F
 	if !ok {
 		logging.Errorf("[%dm|%df][%dc|%ds] moved/ask happen, proxy pool get addr %s failed",
 			f.MsgId(), f.Id, f.OwnerFd(), s.Fd(), addr)
+		f.Error = codec.ErrUnKnownProxyPoolError
 		return
 	}
 
@@ -208,6 +209,7 @@ func (ls *listenServer) OnMoved(addr string, slot int32, s core.SConn, f *core.F
 	if sConn == nil {
 		logging.Errorf("[%dm|%df][%dc|%ds] proxy dial %s failed",
 			f.MsgId(), f.Id, f.OwnerFd(), s.Fd(), addr)
+		f.Error = codec.ErrUnKnownProxyPoolConnError
 		return
 	}
 
